@@ -163,11 +163,13 @@ impl Check for C16C {
                 chardata_extra: 2,
             chardata_full: true,
             attach_only: false,
+                attr_names: &[],
             },
             monitors: Monitors { tree: false, spec: true, order: false, chardata: true, serial: false },
             frontier,
             expand: stage != format!("bfs{}", depth(tier) - 1),
             order_queries: &[],
+            warm_queries: &[],
         })
     }
     fn meta(&self) -> Meta {
